@@ -368,7 +368,6 @@ func vIsInflateOf(out, in []byte) bool {
 var vxMemBase uint64
 
 func vMemMark() {
-	runtime.GC()
 	var ms runtime.MemStats
 	runtime.ReadMemStats(&ms)
 	vxMemBase = ms.TotalAlloc
@@ -731,7 +730,7 @@ func vxProcess(e *etree.Element) *etree.Element {
 		}
 	}
 	sig, name := "", ""
-	signer, keyinfo := -1, true
+	signer, keyinfo, many := -1, true, false
 	var keep []etree.Attr
 	for _, a := range e.Attr {
 		if a.Space == "" && a.Key == "vx-sigholder" {
@@ -743,6 +742,8 @@ func vxProcess(e *etree.Element) *etree.Element {
 				sig = a.Value
 			case "vx-name":
 				name = a.Value
+			case "vx-many":
+				many = a.Value == "1"
 			case "vx-signer":
 				signer = int(a.Value[0] - '0')
 			case "vx-keyinfo":
@@ -769,6 +770,12 @@ func vxProcess(e *etree.Element) *etree.Element {
 		}
 	}
 	e.Attr = keep
+	if many {
+		// a very large message: 1100 small elements in front of wherever the signature will go
+		for i := 0; i < 1100; i++ {
+			e.CreateElement("samlp:SessionIndex").CreateText("s")
+		}
+	}
 	if sig != "" && sig != "none" {
 		for i := 0; i < len(e.Child); i++ {
 			if ce, ok := e.Child[i].(*etree.Element); ok && ce.Tag == "Signature" && len(ce.Child) == 0 {
